@@ -119,6 +119,13 @@ var pumps = []pump{
 	{"any-subquery", 10, func(d int) string {
 		return "SELECT a FROM t WHERE a = ANY " + rep("(SELECT a FROM t WHERE a = ANY ", d) + "(SELECT (1))" + rep(")", d)
 	}},
+	{"parenthesised-select", 2, func(d int) string { return rep("(", d) + "SELECT (1)" + rep(")", d) }},
+	{"union-nested", 5, func(d int) string { return rep("SELECT 1 UNION (", d) + "SELECT (1)" + rep(")", d) }},
+	{"intersect-nested", 5, func(d int) string { return rep("SELECT 1 INTERSECT (", d) + "SELECT (1)" + rep(")", d) }},
+	{"explain", 1, func(d int) string { return rep("EXPLAIN ", d) + "SELECT (1)" }},
+	{"extract", 5, func(d int) string { return "SELECT " + rep("EXTRACT(YEAR FROM ", d) + "(a)" + rep(")", d) + " FROM t" }},
+	{"substring", 6, func(d int) string { return "SELECT " + rep("SUBSTRING(", d) + "(a)" + rep(" FROM 1)", d) + " FROM t" }},
+	{"paren-join", 6, func(d int) string { return "SELECT * FROM " + rep("(t JOIN ", d) + "u" + rep(" ON (1 = 1))", d) }},
 	{"comment-chain", 0, func(d int) string { return "SELECT " + rep("/**/", d) + " 1" }},
 	{"line-comment-chain", 0, func(d int) string { return "SELECT " + rep("--\n", d) + " 1" }},
 }
@@ -587,22 +594,32 @@ func limits(tier string) {
 		seen[c] = true
 		sizes := map[string][]int{"below": {maxIn - 1, maxIn / 2}, "at": {maxIn}, "above": {maxIn + 1, maxIn + 4096}}[c.Len]
 		// token counts INCLUDING the end marker
-		toks := map[string][]int{"below": {maxTok - 1, 1000}, "at": {maxTok}, "above": {maxTok + 2, maxTok + 5000}}[c.Tokens]
+		toks := map[string][]int{"below": {maxTok - 1, 1000}, "at": {maxTok}, "above": {maxTok + 2, maxTok + 37, maxTok + 130, maxTok + 5000}}[c.Tokens]
 		if tier != "thorough" {
-			sizes, toks = sizes[:1], toks[:1]
+			sizes = sizes[:1]
+			if len(toks) > 2 {
+				toks = toks[:2]
+			} else {
+				toks = toks[:1]
+			}
 		}
 		for _, sz := range sizes {
 			for _, tk := range toks {
 				sql := build(tk-1, sz)
-				run.Eval(2)
+				run.Eval(5)
 				run.Nontrivial(fmt.Sprintf("limits/%d/%d", sz, tk))
 				tkz := tokenizer.GetTokenizer()
 				toksOut, terr := tkz.Tokenize([]byte(sql))
 				tokenizer.PutTokenizer(tkz)
 				_, perr := gosqlx.Parse(sql)
+				tkz2 := tokenizer.GetTokenizer()
+				_, tcerr := tkz2.TokenizeContext(context.Background(), []byte(sql))
+				tokenizer.PutTokenizer(tkz2)
+				_, pcerr := gosqlx.ParseWithContext(context.Background(), sql)
+				verr := gosqlx.Validate(sql)
 				want := map[string]string{"accepted": "", "too-large": "E1006", "too-many-tokens": "E1007"}[c.Verdict]
 				cse := map[string]any{"kind": "limits", "bytes": sz, "tokens_with_end_marker": tk, "len_class": c.Len, "token_class": c.Tokens}
-				for name, e := range map[string]error{"Tokenize": terr, "Parse": perr} {
+				for name, e := range map[string]error{"Tokenize": terr, "Parse": perr, "TokenizeContext": tcerr, "ParseWithContext": pcerr, "Validate": verr} {
 					got := ""
 					if e != nil {
 						got = ops.Err(e).Code
